@@ -216,18 +216,35 @@ theorem reads_decPeerAddr (a : PeerAddr) (h : a.wf) : Reads decPeerAddr (encPeer
     rw [this]
     exact Reads.pure a
 
+/-- `source.Len()` in front of a continuation that only needs a lower bound on it -/
+theorem Reads.bind_remaining {f : Nat → Dec β} {b : Bytes} {c : β}
+    (h : ∀ n, n ≥ b.length → Reads (f n) b c) : Reads (remaining >>= f) b c := by
+  intro pre rest l hlen
+  show Dec.bind remaining f _ = _
+  unfold Dec.bind remaining
+  simp only
+  apply h _ _ pre rest l hlen
+  simp only [List.length_append]
+  split <;> omega
+
 theorem reads_decAddr (v : Variant) (l : List PeerAddr) (hn : l.length ≤ MAX_ADDR_NODE_CNT) (hw : ∀ a ∈ l, a.wf) :
     Reads (decAddr v) (encode (.addr l)) (.addr l) := by
   unfold decAddr
   unfold MAX_ADDR_NODE_CNT at hn
   refine Reads.bind (reads_uN 8 l.length (by rw [p64]; omega)) ?_ (b2 := (l.map encPeerAddr).flatten) (by simp [encode])
-  have hlb : (if (v == Variant.sound) = true then l.length else loopBound64 l.length) = l.length := by
-    unfold loopBound64
-    split
-    · rfl
-    · rw [if_pos (by omega)]
-  rw [hlb]
-  refine Reads.bind (reads_repeatD l (fun x hx => reads_decPeerAddr x (hw x hx))) ?_ (List.append_nil _).symm
+  have hrd := reads_repeatD l (fun x hx => reads_decPeerAddr x (hw x hx))
+  have hfl : (l.map encPeerAddr).flatten.length = 44 * l.length := by
+    apply flatten_length_const
+    intro x hx
+    have := spec_decPeerAddr (g := false)
+    obtain ⟨h1, h2, h3, h4, h5, v', hv, hid⟩ := hw x hx
+    simp [encPeerAddr, leN_length, h3]
+  apply Reads.bind_remaining
+  intro n hn'
+  have hgt : ¬ l.length > n := by omega
+  have hlb : loopBound64 l.length = l.length := by unfold loopBound64; rw [if_pos (by omega)]
+  simp only [hgt, decide_false, Bool.and_false, Bool.false_eq_true, if_false, hlb]
+  refine Reads.bind hrd ?_ (List.append_nil _).symm
   have hc : ¬ l.length > MAX_ADDR_NODE_CNT := by unfold MAX_ADDR_NODE_CNT; omega
   simp only [hc, decide_false, if_false]
   refine Reads.bind reads_note_false ?_ rfl
